@@ -252,6 +252,30 @@ def run(tier, seed):
                          [dict(a=[0] * na + r['a'], b=r['b'], cls=r['cls']) for r in b['rows']])
         traces.append(outcome(comb, res, 'SCIPY'))
         meta.append(dict(check='split_concat', solver='SCIPY', mip=False, classes='', prog=-1, dup=0))
+    # split problems with boolean variables, solved exactly and relaxed (options given by keyword must reach every interval problem): the response
+    # must satisfy the contract of the concatenated program / of its relaxation
+    mp = [p for p in progs if any(p['bools']) and 'den' not in p and p['n'] <= 3 and p.get('maporder') is None and brute(p) is not None]
+    mp = [p for p in mp if p.get('binding')] + [p for p in mp if not p.get('binding')]
+    for a, b in list(zip(mp[0::2], mp[1::2]))[:12 if tier == 'quick' else 60]:
+        for soft in (False, True):
+            ops = [build_op(a), build_op(b)]
+            sop = eao.optimization.SplitOptimProblem(ops, pd.concat([ops[0].mapping, ops[1].mapping]))
+            chk.cnt['eval_split_calls'] += 1
+            try:
+                with quiet():
+                    res = sop.optimize(solver='SCIPY', make_soft_problem=soft)
+            except Exception as e:
+                chk.violation(dict(check='split_raises', error=type(e).__name__, soft=soft), 'SplitOptimProblem.optimize raised %s: %s on two feasible interval programs' % (type(e).__name__, e),
+                              dict(programs=[a, b]))
+                continue
+            na, nb = a['n'], b['n']
+            comb = dict(n=na + nb, c=a['c'] + b['c'], l=a['l'] + b['l'], u=a['u'] + b['u'], bools=a['bools'] + b['bools'], dup=0,
+                        rows=[dict(a=r['a'] + [0] * nb, b=r['b'], cls=r['cls']) for r in a['rows']] +
+                             [dict(a=[0] * na + r['a'], b=r['b'], cls=r['cls']) for r in b['rows']])
+            t = outcome(comb, res, 'SCIPY')
+            t['soft'] = soft
+            traces.append(t)
+            meta.append(dict(check='split_concat', solver='SCIPY', mip=True, classes='', prog=-1, dup=0, soft=soft))
     # anti-vacuity: a corrupted copy of an accepted solution must be rejected
     n_real = len(traces)
     # (built independently of the implementation: a fixed program with its known optimum)
